@@ -231,3 +231,42 @@ def replay_dump(v: "Verdict", spec: str, path: str, max_hist: int, judge, ctx=No
                     v.report(sig, case, detail)
                 else:
                     v.drift(sig, case, detail)
+
+
+# -- per-state replay (pure-function specs: every dumped state is one input) -----------------
+
+def _states_range(arg):
+    from . import tlaval
+    judge, path, start, end, ctx = arg
+    ensure_repo_on_path()
+    n = 0
+    nontrivial = 0
+    out = []
+    sample = []
+    for st in tlaval.iter_dump_range(path, start, end):
+        n += 1
+        res, nt, smp = judge(st, ctx)
+        nontrivial += nt
+        if smp is not None and len(sample) < 3:
+            sample.append(smp)
+        out.extend(res)
+    return n, nontrivial, out, sample
+
+
+def replay_states(v: "Verdict", path: str, judge, ctx=None, procs: int = 16):
+    """judge(state, ctx) -> (results, nontrivial(0/1), sample_or_None); results: (kind, signature, case, detail)."""
+    from . import tlaval
+    ranges = tlaval.dump_ranges(path, procs * 4)
+    mpctx = mp.get_context("fork")
+    seen = set()
+    with mpctx.Pool(procs) as pool:
+        for n, nt, out, sample in pool.imap_unordered(_states_range, [(judge, path, s, e, ctx) for s, e in ranges]):
+            v.replayed += n
+            v.nontrivial += nt
+            for s in sample:
+                v.sample(s)
+            for kind, sig, case, detail in out:
+                if kind == "violation":
+                    v.report(sig, case, detail)
+                else:
+                    v.drift(sig, case, detail)
